@@ -181,7 +181,83 @@ def gen_case(rng):
     return case
 
 
+def held_handles_case(src, how1, pretty1, how2):
+    """One Document object used across saves, the way a long-running program does: the body, the metadata, the
+    styles and a paragraph are taken once, the document is saved, then edited *through the objects already held*
+    and saved again. Nothing of what was written through them may be missing from the second artefact."""
+    from odfdo import Paragraph
+
+    with DL.TmpDir() as tmp:
+        doc = DL.open_source(src)
+        is_text = doc.mimetype.endswith(".text")
+        body, meta, styles, manifest = doc.body, doc.meta, doc.styles, doc.manifest
+        para = None
+        if is_text:
+            para = Paragraph("held paragraph")
+            body.append(para)
+        try:
+            DL.save_doc(doc, how1, tmp, pretty=pretty1, tag="h1")
+        except Exception as e:
+            return [(f"save-raised:{type(e).__name__}", {"exc": repr(e), "save": 1})]
+        marker = "VF-AFTER-FIRST-SAVE"
+        meta.title = marker
+        styles.root.set_attribute("office:version", styles.root.get_attribute("office:version") or "1.2")
+        sroot = styles.root
+        sroot.append(_marker_style(marker))
+        if para is not None:
+            para.append(" " + marker)
+            body.append(Paragraph(marker + "-2"))
+        try:
+            artefact, pkg = DL.save_doc(doc, how2, tmp, pretty=False, tag="h2")
+        except Exception as e:
+            return [(f"save-raised:{type(e).__name__}", {"exc": repr(e), "save": 2})]
+        parts = dict(pkg.parts)
+        missing = []
+        if marker.encode() not in parts.get("meta.xml", b""):
+            missing.append("meta.title set through the Meta object held since before the first save")
+        if marker.encode() not in parts.get("styles.xml", b""):
+            missing.append("element appended through the Styles part held since before the first save")
+        if is_text:
+            c = parts.get("content.xml", b"")
+            if ("held paragraph " + marker).encode() not in c:
+                missing.append("text appended to a paragraph held since before the first save")
+            if (marker + "-2").encode() not in c:
+                missing.append("paragraph appended through the body held since before the first save")
+        if missing:
+            return [("held-handle-edit-lost-after-save", {"first_save": [how1, pretty1], "second_save": how2, "missing": missing})]
+        # and the objects a fresh access gives are still the ones held
+        if doc.body is not body and (marker + "-2") not in (doc.body.serialize() if is_text else marker + "-2"):
+            return [("held-handle-detached-after-save", {"first_save": [how1, pretty1]})]
+    return []
+
+
+def _marker_style(marker):
+    from odfdo import Element
+
+    return Element.from_tag(f'<office:vf-marker xmlns:office="urn:oasis:names:tc:opendocument:xmlns:office:1.0" office:note="{marker}"/>')
+
+
 def run(ctx, res):
+    hsrc = [{"kind": "template", "name": t} for t in DL.TEMPLATES] + [{"kind": "sample", "name": s} for s in DL.sample_files() if not DL.is_big(s)][:8]
+    j = 0
+    for src in hsrc:
+        for how1 in ("zip-io", "zip-path", "folder"):
+            for pretty1 in (False, True):
+                j += 1
+                if not ctx.mine(j):
+                    continue
+                how2 = ("zip-io", "zip-path", "folder")[j % 3]
+                case = {"held": {"source": src, "how1": how1, "pretty1": pretty1, "how2": how2}}
+                try:
+                    v = held_handles_case(src, how1, pretty1, how2)
+                except Exception as e:
+                    import traceback
+
+                    v = [(f"harness-raised:{type(e).__name__}", {"tb": traceback.format_exc()[-800:]})]
+                res.judge()
+                res.cls(("held-handles", src["kind"], how1, "pretty" if pretty1 else "plain", how2), True)
+                for m, d in v[:1]:
+                    res.violation(m, d, {"case": case})
     # every sample and template once with an unmodified open/save in each packaging (identity)
     base = [{"kind": "template", "name": t} for t in DL.TEMPLATES] + [{"kind": "sample", "name": s} for s in DL.sample_files()]
     i = 0
@@ -208,6 +284,9 @@ def run(ctx, res):
 
 
 def replay(case):
+    if "held" in case["case"]:
+        h = case["case"]["held"]
+        return [{"mechanism": m, "detail": d} for m, d in held_handles_case(h["source"], h["how1"], h["pretty1"], h["how2"])]
     v = run_case(case["case"], None)
     return [{"mechanism": m, "detail": d} for m, d in (v or [])]
 
